@@ -1,0 +1,135 @@
+//go:build verif
+// +build verif
+
+// Contracts for the hint file codec and lookup (C14).
+
+package store
+
+import (
+	"bufio"
+	"os"
+)
+
+var _ = bufio.NewReader
+var _ = os.Open
+
+// ---------- layout (from the statement / file format) ----------
+// header: indexOffset(8) numKey(4) datasize(4); item: keyhash(8) chunk(4) offset(4) ver(4) vhash(2) ksz(1) key
+
+func fileLE16(f *os.File, o int) uint16 { return uint16(fileByte(f, o)) + uint16(fileByte(f, o+1))*256 }
+func fileLE64(f *os.File, o int) uint64 {
+	return uint64(fileLE32(f, o)) + uint64(fileLE32(f, o+4))*4294967296
+}
+func streamLE16(w *bufio.Writer, o int) uint16 {
+	return uint16(streamByte(w, o)) + uint16(streamByte(w, o+1))*256
+}
+func streamLE32(w *bufio.Writer, o int) uint32 {
+	return uint32(streamByte(w, o)) + uint32(streamByte(w, o+1))*256 + uint32(streamByte(w, o+2))*65536 + uint32(streamByte(w, o+3))*16777216
+}
+func streamLE64(w *bufio.Writer, o int) uint64 {
+	return uint64(streamLE32(w, o)) + uint64(streamLE32(w, o+4))*4294967296
+}
+
+//@ func (fm *hintFileMeta) Dumps
+//@   props C14
+//@   ints both
+//@   requires len(buf) >= 16
+//@   modifies elems(buf)
+//@   ensures le64(buf, 0) == uint64(fm.indexOffset) && le32(buf, 8) == uint32(fm.numKey) && le32(buf, 12) == fm.datasize
+
+//@ func (fm *hintFileMeta) Loads
+//@   props C14
+//@   ints both
+//@   requires len(buf) >= 16
+//@   modifies fm.indexOffset, fm.numKey, fm.datasize
+//@   ensures fm.indexOffset == int64(le64(buf, 0)) && fm.numKey == int(le32(buf, 8)) && fm.datasize == le32(buf, 12)
+
+// lemma: the header round trip (for 0 <= numKey < 2^32)
+func lemmaHintMetaRoundTrip(fm *hintFileMeta, buf []byte) bool {
+	io, nk, ds := fm.indexOffset, fm.numKey, fm.datasize
+	fm.Dumps(buf)
+	fm.Loads(buf)
+	return fm.indexOffset == io && fm.numKey == nk && fm.datasize == ds
+}
+
+//@ func lemmaHintMetaRoundTrip
+//@   props C14
+//@   ints bv
+//@   requires fm != nil && len(buf) >= 16 && 0 <= fm.numKey && fm.numKey < 1<<32
+//@   modifies elems(buf), fm.indexOffset, fm.numKey, fm.datasize
+//@   ensures result0
+
+// writeItem appends exactly the encoding of the item to the writer's stream and advances the
+// logical offset by its length; the item count grows by one. (The sparse index buffer it also
+// feeds is not described here: modifies *.)
+//@ func (w *hintFileWriter) writeItem
+//@   props C14
+//@   ints bv
+//@   requires item != nil && w.wbuf != nil && w.index != nil && Conf != nil && len(item.Key) <= 255
+//@   requires w.index.index != nil && 0 <= w.index.currRow && w.index.currRow < len(w.index.index)-1 && 0 <= w.index.currCol && w.index.currCol < len(w.index.index[w.index.currRow]) && len(w.index.index[w.index.currRow]) == HINTINDEX_ROW_SIZE
+//@   requires 0 <= w.offset && w.offset < 1<<40 && 0 <= w.numKey && w.numKey < 1<<40
+//@   modifies w.offset, w.numKey, elems(w.buf), ghostStream(w.wbuf), ghostFail(), w.index.lastoffset, w.index.currRow, w.index.currCol, elems(w.index.index), elems(w.index.index[w.index.currRow])
+//@   ensures w.offset == old(w.offset)+23+int64(len(item.Key)) && w.numKey == old(w.numKey)+1
+//@   ensures !ioFailed() ==> streamLen(w.wbuf) == old(streamLen(w.wbuf))+23+len(item.Key)
+//@   ensures !ioFailed() ==> streamLE64(w.wbuf, old(streamLen(w.wbuf))) == item.Keyhash && streamLE32(w.wbuf, old(streamLen(w.wbuf))+8) == uint32(item.Pos.ChunkID) && streamLE32(w.wbuf, old(streamLen(w.wbuf))+12) == item.Pos.Offset
+//@   ensures !ioFailed() ==> streamLE32(w.wbuf, old(streamLen(w.wbuf))+16) == uint32(item.Ver) && streamLE16(w.wbuf, old(streamLen(w.wbuf))+20) == item.Vhash && int(streamByte(w.wbuf, old(streamLen(w.wbuf))+22)) == len(item.Key)
+//@   ensures !ioFailed() ==> forall(0, len(item.Key), func(i int) bool { return streamByte(w.wbuf, old(streamLen(w.wbuf))+23+i) == item.Key[i] })
+
+//@ func (idx *hintFileIndexBuffer) append
+//@   props C14
+//@   ints bv
+//@   requires idx.index != nil && 0 <= idx.currRow && idx.currRow < len(idx.index)-1 && 0 <= idx.currCol && idx.currCol < len(idx.index[idx.currRow]) && len(idx.index[idx.currRow]) == HINTINDEX_ROW_SIZE
+//@   modifies idx.lastoffset, idx.currRow, idx.currCol, elems(idx.index), elems(idx.index[idx.currRow])
+//@   ensures idx.lastoffset == offset
+//@   ensures 0 <= idx.currRow && idx.currRow <= old(idx.currRow)+1 && 0 <= idx.currCol && idx.currCol < HINTINDEX_ROW_SIZE && len(idx.index) == old(len(idx.index))
+
+// readerSync: the buffered reader of a hint file reader delivers the file from reader.offset on
+func hintReaderSync(reader *hintFileReader) bool {
+	return reader.fd != nil && reader.rbuf != nil && readerOn(reader.rbuf, reader.fd) && readerPos(reader.rbuf) == int(reader.offset)
+}
+
+// next returns the item encoded at reader.offset (nil at the end of the item area) and advances.
+//@ func (reader *hintFileReader) next
+//@   props C14
+//@   ints math
+//@   requires hintReaderSync(reader) && 0 <= reader.offset && int(reader.offset) <= fileSize(reader.fd)
+//@   modifies reader.offset, elems(reader.buf), ghostReader(reader.rbuf), ghostFail()
+//@   ensures old(reader.offset) >= reader.indexOffset ==> item == nil && err == nil && reader.offset == old(reader.offset)
+//@   ensures item != nil && err == nil ==> fresh(item) && reader.offset == old(reader.offset)+23+int64(len(item.Key)) && hintReaderSync(reader)
+//@   ensures item != nil && err == nil ==> len(item.Key) == int(fileByte(reader.fd, int(old(reader.offset))+22)) && int(old(reader.offset))+23+len(item.Key) <= fileSize(reader.fd)
+//@   ensures item != nil && err == nil ==> item.Keyhash == fileLE64(reader.fd, int(old(reader.offset))) && item.Pos.ChunkID == int(fileLE32(reader.fd, int(old(reader.offset))+8)) && item.Pos.Offset == fileLE32(reader.fd, int(old(reader.offset))+12)
+//@   ensures item != nil && err == nil ==> item.Ver == int32(fileLE32(reader.fd, int(old(reader.offset))+16)) && item.Vhash == fileLE16(reader.fd, int(old(reader.offset))+20)
+//@   ensures item != nil && err == nil ==> forall(0, len(item.Key), func(i int) bool { return item.Key[i] == fileByte(reader.fd, int(old(reader.offset))+23+i) })
+//@   ensures old(reader.offset) < reader.indexOffset ==> item != nil   // (on a read error the partly filled item is returned together with the error)
+
+//@ func newHintFileReader
+//@   props C14
+//@   ints both
+//@   inline
+
+// open: reads the 16-byte header and leaves the reader positioned at the first item
+//@ func (reader *hintFileReader) open
+//@   props C14
+//@   ints math
+//@   reliable_io
+//@   modifies reader.fd, reader.rbuf, reader.offset, reader.size, reader.indexOffset, reader.numKey, reader.datasize, elems(reader.buf), ghostHandles(), ghostFail()
+//@   ensures err == nil ==> hintReaderSync(reader) && fresh(reader.fd) && fresh(reader.rbuf) && reader.offset == 16 && int(reader.size) == fileSize(reader.fd) && 16 <= fileSize(reader.fd)
+//@   ensures err == nil ==> fileSize(reader.fd) == pathFileSize(reader.path)
+//@   ensures err == nil ==> reader.numKey == int(fileLE32(reader.fd, 8)) && reader.datasize == fileLE32(reader.fd, 12)
+//@   ensures err == nil && fileLE64(reader.fd, 0) != 0 ==> reader.indexOffset == int64(fileLE64(reader.fd, 0))
+//@   ensures err == nil && fileLE64(reader.fd, 0) == 0 ==> reader.indexOffset == reader.size
+
+// get: lookup of (keyhash, key) through the sparse index. What is stated: a returned item is an
+// item decoded from the file that carries exactly the wanted hash and key; the scan uses the
+// reader in sync with its logical offset (precondition of next) — the condition under which the
+// end-of-items test of next is meaningful and an absent key ends with (nil, nil) instead of an
+// error from reading into the index rows.
+//@ func (idx *hintFileIndex) get
+//@   props C14
+//@   ints math
+//@   reliable_io
+//@   requires Conf != nil && 0 <= Conf.IndexIntervalSize && Conf.IndexIntervalSize < 1<<31
+//@   requires forall(0, len(idx.index), func(i int) bool { return 16 <= idx.index[i].offset && int(idx.index[i].offset) <= pathFileSize(idx.path) })   // index rows point into the file
+//@   modifies *
+//@   ensures item != nil ==> err == nil && item.Keyhash == keyhash && item.Key == key
+//@   loop 1 invariant reader != nil && hintReaderSync(reader) && 0 <= reader.offset && int(reader.offset) <= fileSize(reader.fd) && item == nil
